@@ -1,4 +1,4 @@
-package main
+package main_test
 
 // C14 — generated aspiration levels follow the documented series and end.
 
